@@ -430,4 +430,59 @@ theorem step_log_prefix (v : Variant) (s : St) (e : Ev) : s.log <+: (step v s e)
 
 end FileOut
 
+/-! ## filter -/
+namespace Filter
+
+theorem mem_tagged (l : List Nat) (u g : Nat) : (u, g) ∈ l.map (·, g) ↔ u ∈ l := by
+  simp
+
+/-- the links held are those of the configuration in force, at the generation in force -/
+def Wired (c : Cfg) (s : St) : Prop := s.sources = c.sources.map (·, s.gen) ∧ s.name = c.name
+
+theorem run_spec (c : Cfg) (s : St) (hw : Wired c s) (es : List Ev) :
+    (run s es).out = s.out ++ spec c es ∧ Wired (cfgAfter c es) (run s es) := by
+  induction es generalizing c s with
+  | nil => simp [run, spec, cfgAfter, hw]
+  | cons e es ih =>
+    cases e with
+    | eos u t =>
+      have hc : (u, s.gen) ∈ s.sources ↔ u ∈ c.sources := by rw [hw.1]; exact mem_tagged _ _ _
+      by_cases h : u ∈ c.sources
+      · have := ih c { s with out := s.out ++ [t] } ⟨hw.1, hw.2⟩
+        simpa [run, step, hc, h, spec, cfgAfter] using this
+      · have := ih c s hw
+        simpa [run, step, hc, h, spec, cfgAfter] using this
+    | reload c' =>
+      have := ih c' { s with name := c'.name, gen := s.gen + 1, sources := c'.sources.map (·, s.gen + 1) } ⟨rfl, rfl⟩
+      simpa [run, step, spec, cfgAfter] using this
+
+theorem spec_append (c : Cfg) (a b : List Ev) : spec c (a ++ b) = spec c a ++ spec (cfgAfter c a) b := by
+  induction a generalizing c with
+  | nil => rfl
+  | cons e a ih =>
+    cases e with
+    | eos u t => by_cases h : u ∈ c.sources <;> simp [spec, cfgAfter, ih, h]
+    | reload c' => simp [spec, cfgAfter, ih]
+
+end Filter
+
+/-! ## null-out -/
+namespace NullOut
+
+theorem run_sources (srcs : List Nat) (s : St) (hs : s.sources = srcs.map (·, s.gen)) (es : List Ev) :
+    (run s es).sources = (lastSources srcs es).map (·, s.gen + loads es) ∧ (run s es).gen = s.gen + loads es := by
+  induction es generalizing srcs s with
+  | nil => simp [run, lastSources, loads, hs]
+  | cons e es ih =>
+    cases e with
+    | report => simpa [run, step, lastSources, loads] using ih srcs s hs
+    | reload s' =>
+      have := ih s' { sources := s'.map (·, s.gen + 1), gen := s.gen + 1 } rfl
+      dsimp only at this
+      simp only [run, step, lastSources, loads]
+      rw [this.1, this.2, show s.gen + 1 + loads es = s.gen + (loads es + 1) by omega]
+      exact ⟨rfl, rfl⟩
+
+end NullOut
+
 end Rotonda.ReconfUnits
